@@ -169,6 +169,23 @@ def scenarios(g, rng):
                 lambda: attempt({'rows': {'type': 'list', 'schema': {'type': 'dict', 'schema': S}}}, {'rows': [{'required': 'x'}]})]
     out.append(Scenario("shared-invalid-role-twins", role_twins))
 
+    def of_tails():
+        # definitions another thread has validated (and remembered) in front of one that is ill-formed: each list of definitions is
+        # checked to its end whatever the cache holds
+        reset_process_state()
+        good = {'b': {'anyof': [{'type': 'integer'}, {'type': 'string', 'maxlength': 3}]}, 'c': {'type': 'list', 'schema': {'oneof': [{'min': 1}]}}}
+        bad1 = {'b': {'anyof': [{'type': 'integer'}, {'type': 'string', 'maxlength': '3'}]}}
+        bad2 = {'c': {'type': 'list', 'schema': {'oneof': [{'min': 1}, {'nosuchrule': 1}]}}}
+
+        def attempt(schema, d):
+            try:
+                v = pool.PoolValidator(schema)
+            except cerberus.SchemaError:
+                return "rejected"
+            return ("accepted",) + tuple(observe(v, d)[:2])
+        return [lambda: attempt(good, {'b': 'abcd', 'c': [0]}), lambda: attempt(bad1, {'b': 'abcd'}), lambda: attempt(bad2, {'c': [0]})]
+    out.append(Scenario("shared-invalid-of-tails", of_tails))
+
     def earlier_and_constructing():
         reset_process_state()
         shared = copy.deepcopy(canon)
